@@ -1,21 +1,27 @@
 """C17 — custom settings WRITTEN ON THE COMMAND LINE (`replicat init … --encryption.kdf.n 16 --hashing.name blake2b`).
 
-Regenerated from /repo on every run (all by AST structure, never by text):
+Regenerated from /repo on every run, by SYMBOLIC EXECUTION (tools/optflow.py) and case analysis over the atomic conditions —
+what the functions DO in each case, not how their statements are arranged.  Renamed locals, swapped branches, `continue` /
+early `return`, conditional expressions, De Morgan, an index-`while` instead of `for`, a key helper, hoisted constants, added
+logging / counters leave the facts unchanged; any other EFFECT (another append / store / raise) or an extra deciding condition
+makes the shape "not recognised":
 
-* `replicat/utils/cli.py::parse_cli_settings` — the shape of the loop: the prefix test (`arg.startswith('--')`), the
-  bookkeeping of `flag` / `unknown` / `mapping` (flag after flag → unknown, value without flag → unknown, trailing flag →
-  unknown, value after flag → `mapping[key] = value`, `flag = None`), the key normalisation expression as a chain of str
-  methods on the flag (`flag.lstrip('-').replace('-', '_')` → `[.lstrip ['-'], .replace '-' '_']`; the model INTERPRETS
-  that list) and the name of the coercion function applied to the value;
-* `replicat/utils/__init__.py::flat_to_nested` — the separator default, whether the items are iterated `sorted(...)`,
-  the `*ancestors, attribute = key.split(sep)` / `setdefault` descent / item assignment inside a `try`, the exception
-  classes caught and the error raised for them;
-* `replicat/utils/__init__.py::guess_type` — the words that are title-cased before evaluation, the evaluator
-  (`ast.literal_eval`), the exception classes that make it return the text itself;
-* `replicat/__main__.py::main` — the call chain: unknown arguments of the SECOND parse → `cli.parse_cli_settings` →
-  (only if nothing is left unknown) `utils.flat_to_nested` → `main_parser.error` if anything is left unknown → handler,
-  the set of actions for which this happens, and that `_cmd_handler` hands its `settings` parameter to
-  `repository.init / add_key / benchmark` as `settings=`.
+* `replicat/utils/cli.py::parse_cli_settings` — one pass over the arguments with a pending-flag variable F, a fresh mapping M
+  and a fresh list U; per case of (`arg.startswith(<prefix>)`, `F is None`) what is appended / stored and what F becomes
+  (flag after flag → U gets the old flag; value without flag → U; value after flag → `M[key(F)] = coerce(arg)`, `F = None`;
+  trailing flag → U); the key normalisation as a chain of str methods on the flag (`[.lstrip ['-'], .replace '-' '_']`; the
+  model INTERPRETS that list) and the coercion function;
+* `replicat/utils/__init__.py::flat_to_nested` — the separator default, whether the items are iterated `sorted(...)`, the
+  descent `node = node.setdefault(part, {})` over all parts of `key.split(sep)` but the last, starting at the result dict,
+  the store `node[last] = value`, both inside one `try`; the exception classes caught and the error raised for them;
+* `replicat/utils/__init__.py::guess_type` — its RESULT per case of (is a str, `v.lower()` in WORDS, the evaluator raised):
+  the words that are title-cased before evaluation, the evaluator (`ast.literal_eval`), the exception classes that make it
+  return the text itself;
+* `replicat/__main__.py::main` — per case of (unknown words U0 of the second parse non-empty, action ∈ ACTIONS, words U1 that
+  `parse_cli_settings(U0)` leaves unknown non-empty): the settings handed to the handler are `flat_to_nested(flat)` iff
+  U0 ∧ action ∈ ACTIONS ∧ ¬U1, else None; `parser.error` is reached iff the still-unknown words are non-empty; then the handler
+  (the coroutine function main() runs, whatever its name) is called; and per action which `repository.<method>` receives
+  `settings=<that parameter>`.
 
 Whatever is not recognised sets the corresponding `…Recognised` flag to false (defaults are emitted so that the model still
 compiles); `Replicat.C17.cli_shape_bridge` discharges the flags and the extracted values by `decide`, and the theorems use
